@@ -242,6 +242,28 @@ theorem forgetful_reset_leaks :
     (view (prepare [.setRequest 2, .setResponse 2, .setHandlers 2, .setRouter 1, .setIndex (-1), .zeroCount]
       (resetForgetsVersion (dirtyAll (prepare (stepsTree 1 "42".toList) brandNew))))).version = "v9".toList := by decide
 
+/-! ### finding K03a (fixed in /repo 47bf5ea): a failed compiled candidate left parameters behind -/
+
+def nineOf (names : List String) : List KV :=
+  names.zip ["s", "1", "2", "3", "4", "5", "6", "7", "8", "9", "zz"] |>.map fun (k, v) => (k.toList, v.toList)
+
+/-- `/m/s/:a/…/:i/:j` (j constrained to digits) on `/m/s/1/…/9/zz`: :a…:i pass and are stored, :j fails -/
+def k03aFailed : List KV := nineOf ["a", "b", "c", "d", "e", "f", "g", "h", "i"] |>.zip ["1", "2", "3", "4", "5", "6", "7", "8", "9"] |>.map fun (kv, v) => (kv.1, v.toList)
+
+/-- then `/m/:z/:a/…/:h/:x/:y` matches the same path -/
+def k03aMatched : List Step :=
+  (nineOf ["z", "a", "b", "c", "d", "e", "f", "g", "h", "x", "y"]).map fun (k, v) => Step.writeParam k v
+
+/-- as shipped: the handler of the second route reads `i = "9"` although `i` is not one of its parameters -/
+theorem asIs_failed_candidate_leaks :
+    param (view (prepare k03aMatched (failedCandidateAsIs k03aFailed (prepare [.zeroCount] brandNew)))) "i".toList = "9".toList := by
+  rfl
+
+/-- repaired (a failed candidate stores nothing): `i` reads as empty -/
+theorem fixed_failed_candidate_clean :
+    param (view (prepare k03aMatched (prepare [.zeroCount] brandNew))) "i".toList = [] := by
+  rfl
+
 /-- a serve path that writes parameters without `paramCount = 0` first is excluded by `covers` -/
 example : covers {} [.setRequest 1, .setResponse 1, .setRouter 1, .setIndex (-1), .writeParam [] [], .zeroCount] = false := by
   decide
